@@ -39,7 +39,9 @@ def _collect():
             key = (f.__module__, f.__name__)
             if key not in seen:
                 seen.add(key)
-                TABLES.append(_wrap(m.name, f))
+                g = _wrap(f.__module__.split('.')[-1], f)
+                g.k1_module = f.__module__.split('.')[-1]   # the module that defines the generator
+                TABLES.append(g)
 
 
 _collect()
